@@ -164,7 +164,11 @@ def check(case):
                 # is the deviation that of the documented moment-at-the-pulse-point rule itself (reference point
                 # sum vs reference exact integral of the same currents), the program agreeing with that rule?
                 rule_dev = max(np.abs(ref_p - ex_p).max(), np.abs(ref_q - ex_q).max()) / mx
-                if abs(err - rule_dev) <= 2e-4 and err <= 0.10:
+                # (the cap only bounds what is attributed to the finding: that the program follows the rule is checked
+                # separately above at 1e-4.  Low horizontal wires over ground radiate the small difference of wire and
+                # image: the rule's phase error of k l / 4 per half segment is then large against that maximum - 24 %
+                # observed for 3 pulses at 0.008 wavelength height)
+                if abs(err - rule_dev) <= 2e-4 and err <= 0.5:
                     sig += ':deviation-of-the-point-rule-itself'
                 fails.append((sig, 'reported far field differs from the exact integral by %.3g of the maximum '
                               '(segments <= lambda/18, %d pulses, %d on bends)' % (err, len(topo.pulses), len(bent))))
